@@ -457,3 +457,20 @@ package locate
 //@   opaque-callee updateServerLoadStats markAlreadySlow GetLeaderPeerID canFastRetry ToBackoffReasonString Cop
 //@   at return assert paidOrPending: shouldRetry && err == nil ==> bo.backoffTimes[retry.tikvBusyKind()] == old(bo.backoffTimes[retry.tikvBusyKind()]) + 1 ||
 //@       (s.pendingBackoffs != nil && inDom(s.pendingBackoffs, ite(store != nil, store.storeID, 0)) && (s.target != nil ==> (s.target.flag / 8) % 2 == 1))
+
+// A lookup by region id answers the region with that id: the cached one, or the one PD reports for the id (assumed of
+// loadRegionByID / searchCachedRegionByID: they answer a region of the id asked for).
+//@ func (*RegionCache) searchCachedRegionByID
+//@   trusted
+//@   modifies nothing
+//@   ensures result0 != nil ==> result0.meta != nil && result0.meta.Id == regionID
+//@ func (*RegionCache) loadRegionByID
+//@   trusted
+//@   modifies nothing
+//@   ensures result1 == nil ==> result0 != nil && result0.meta != nil && result0.meta.Id == regionID
+//@ func (*RegionCache) LocateRegionByID
+//@   prop C09
+//@   bytes: key
+//@   may-panic
+//@   opaque-callee resetSyncFlags observeLoadRegion setSyncFlags insertRegionToCache getStore
+//@   ensures byid: result1 == nil ==> result0 != nil && result0.Region.id == regionID
